@@ -11,6 +11,7 @@ typedef int64_t iora_tp; typedef int64_t iora_ms; typedef int64_t iora_sec;
 #define NS_PER_SEC 1000000000
 /* time_point(milliseconds(ms)): ms -> ns, signed overflow is an obligation (--signed-overflow-check). Ghost: last argument/result. */
 bool G_fromms_called; int64_t G_fromms_arg; int64_t G_fromms_ret;
+bool G_hint_on; int64_t G_hint_ms, G_hint_ns;
 /* duration_cast<milliseconds>/<seconds>(ns): truncation toward zero by a CONSTANT divisor d.  Written as a stub that returns the value q
  * DEFINED by the division theorem (n >= 0: q*d <= n < (q+1)*d; n < 0: mirrored) instead of the `/` operator: the SAT back end does not finish
  * facts that relate a 64-bit divider circuit to the multiplier of the inverse conversion (measured: > 300 s), whereas with this form the
@@ -33,6 +34,7 @@ static inline iora_ms iora_ns_to_ms(int64_t ns) { return iora_tdiv_const(ns, NS_
 static inline iora_tp iora_tp_from_ms(int64_t ms)
 { G_fromms_called = true; G_fromms_arg = ms; G_fromms_ret = ms * NS_PER_MS;
   IORA_ASSUME(!(ms == G_div_q && G_div_d == NS_PER_MS) || G_fromms_ret == G_div_qd);
+  IORA_ASSUME(!(G_hint_on && ms == G_hint_ms) || G_fromms_ret == G_hint_ns);      /* same kind of hint; the harness sets G_hint_ns = G_hint_ms * 10^6 */
   return G_fromms_ret; }
 static inline iora_sec iora_ns_to_sec(int64_t ns) { return iora_tdiv_const(ns, NS_PER_SEC); }
 /* system_clock::now(): environment stub - any value not before 1970 and not before the previous reading (trusted; the wall clock can in
